@@ -9,7 +9,7 @@ verus! {
 /*@include shims/try_from.rs @*/
 /*@include shims/option_map_or.rs @*/
 /*@include shims/tuple_default.rs @*/
-/*@include shims/option_std_extra.rs @*/
+
 
 // ================================================================================================
 // env: what the state machine mentions but which is NOT under contract (system API, vaults, errors)
